@@ -274,6 +274,39 @@ def history_layer(ctx):
     return n
 
 
+def keyword_lookalikes():
+    """filters in which one letter of a keyword is replaced by a non-ASCII character that the regex engine treats as the same
+    letter under IGNORECASE (U+017F long s, U+0130/U+0131 dotted/dotless i, U+212A Kelvin sign ...)"""
+    import re
+    import string
+    eq = {}
+    for cp in range(0x80, 0x10000):
+        c = chr(cp)
+        for L in string.ascii_lowercase:
+            if re.fullmatch(L, c, re.I):
+                eq.setdefault(L, []).append(c)
+    templates = ["a %s 1", "a %s b", "a %s (1, 2)", "%s a", "a eq %s", "xs/%s(x: x/p eq 1)", "a eq %s'P1D'", "a gt 2020-01-01%s10:00:00Z",
+                 "a gt 2020-01-01T10:00:00%s", "a eq 1%s3"]
+    words = ["add", "sub", "mul", "div", "mod", "and", "or", "eq", "ne", "lt", "le", "gt", "ge", "in", "not ", "any", "all", "true", "false", "null",
+             "duration", "geography", "T", "Z", "e"]
+    out = []
+    for w in words:
+        for i, ch in enumerate(w):
+            for alt in eq.get(ch.lower(), []):
+                v = w[:i] + alt + w[i + 1:]
+                for tpl in templates:
+                    out.append(tpl % v)
+    return out
+
+
+def _lookalike_unit(texts):
+    acc = Acc()
+    for t in texts:
+        judge_text(acc, "keyword-lookalikes", t, twice=False)
+        acc.count("states")
+    return acc
+
+
 def run(ctx):
     # 1. strings
     k = 3 if ctx.quick else 4
@@ -283,6 +316,9 @@ def run(ctx):
 
     nh = history_layer(ctx)
     ctx.layer("history", texts=nh, passes=2, exhaustive=True)
+    kl = keyword_lookalikes()
+    ctx.pmap(_lookalike_unit, [kl[i::16] for i in range(16) if kl[i::16]])
+    ctx.layer("keyword-lookalikes", texts=len(kl), exhaustive=True)
 
     # 2. LR configurations
     depth = 5 if ctx.quick else 7
